@@ -460,11 +460,13 @@ def error_swallow(prog, chk):
             ent = None
             for owner in reviewed_owners(k[0]):
                 e2 = allow.get((owner, k[1], klass(k[2])))
-                if e2 is not None and e2["used"] < e2["count"]:
+                # a reviewed (function, callee, class) covers every site of that kind in the function: merging two
+                # copies into a helper, or a helper spliced in at several call sites, changes the number of sites only
+                if e2 is not None:
                     ent = e2
                     break
             key = f"{strip_closures(b.path).replace('svgdx::', '')}:{k[1]}:{f.split(':')[-1]}"
-            if ent is not None and ent["used"] < ent["count"]:
+            if ent is not None:
                 ent["used"] += 1
                 chk.ok("A6.error-swallow", key, b.where(st.bb, st.line), f"reviewed: {ent['reason']}", by="table")
             else:
